@@ -130,12 +130,17 @@ func c19Walk(env envs.Environment, path string, v types.XValue, depth int, out m
 	if depth > 7 {
 		return
 	}
-	out[path+"|text"] = types.Render(v)
+	kind := ""
+	switch v.(type) {
+	case *types.XObject, *types.XArray:
+		kind = "(container)"
+	}
+	out[path+"|text"+kind] = types.Render(v)
 	if j, err := types.ToXJSON(v); err == nil {
-		out[path+"|json"] = j.Native()
+		out[path+"|json"+kind] = j.Native()
 	}
 	if f, err := types.ToXText(env, v); err == nil {
-		out[path+"|totext"] = f.Native()
+		out[path+"|totext"+kind] = f.Native()
 	}
 	switch t := v.(type) {
 	case *types.XObject:
@@ -171,7 +176,8 @@ type c19Obs struct {
 	messages []string
 }
 
-func c19Run(env envs.Environment, us []c19URN, b bool, name string, trigger string, inputs []string) (*c19Obs, error) {
+// switchTo: when not nil, the session starts under env and the first resume carries switchTo (the host turned redaction on)
+func c19Run(env envs.Environment, us []c19URN, b bool, name string, trigger string, inputs []string, switchTo envs.Environment) (*c19Obs, error) {
 	src, err := static.NewSource([]byte(c19Assets))
 	if err != nil {
 		return nil, err
@@ -228,6 +234,8 @@ func c19Run(env envs.Environment, us []c19URN, b bool, name string, trigger stri
 			}
 		}
 		for ri, rn := range s.Runs() {
+			// what expressions see: the environment the session evaluates with
+			env := s.MergedEnvironment()
 			root := types.NewXObject(rn.RootContext(env))
 			c19Walk(env, fmt.Sprintf("%s/run%d", stage, ri), root, 0, obs.paths)
 			for _, tpl := range c19Templates {
@@ -241,7 +249,11 @@ func c19Run(env envs.Environment, us []c19URN, b bool, name string, trigger stri
 		if s.Status() != flows.SessionStatusWaiting {
 			break
 		}
-		sp, err := s.Resume(resumes.NewMsg(nil, nil, flows.NewMsgIn(flows.MsgUUID(uuids.NewV4()), msgURN, nil, in, nil)))
+		var renv envs.Environment
+		if k == 0 && switchTo != nil {
+			renv = switchTo
+		}
+		sp, err := s.Resume(resumes.NewMsg(renv, nil, flows.NewMsgIn(flows.MsgUUID(uuids.NewV4()), msgURN, nil, in, nil)))
 		if err != nil {
 			return obs, nil
 		}
@@ -250,12 +262,14 @@ func c19Run(env envs.Environment, us []c19URN, b bool, name string, trigger stri
 	return obs, nil
 }
 
+var c19ContactID = 1234567
+
 func c19Contact(sa flows.SessionAssets, us []c19URN, b bool, name string) (*flows.Contact, error) {
 	var raws []urns.URN
 	for _, u := range us {
 		raws = append(raws, u.raw(b))
 	}
-	return flows.NewContact(sa, flows.ContactUUID("5d76d86b-3bb9-4d5a-b822-c9d86f5d8e4f"), flows.ContactID(1234567), name, i18n.Language("eng"), flows.ContactStatusActive, nil,
+	return flows.NewContact(sa, flows.ContactUUID("5d76d86b-3bb9-4d5a-b822-c9d86f5d8e4f"), flows.ContactID(c19ContactID), name, i18n.Language("eng"), flows.ContactStatusActive, nil,
 		time.Date(2020, 1, 1, 0, 0, 0, 0, time.UTC), nil, raws, nil, nil, nil, assets.IgnoreMissing)
 }
 
@@ -372,7 +386,7 @@ func c19ModelOp(c *Ctx, env envs.Environment, redact bool, us []c19URN, b bool, 
 		return strings.Join(xs, ",")
 	}
 	nm := hx(name)
-	op := fmt.Sprintf("ctxview %s %s 1234567 %s %s", r01, nm, orU(enc), orU(sendable))
+	op := fmt.Sprintf("ctxview %s %s %d %s %s", r01, nm, c19ContactID, orU(enc), orU(sendable))
 	exp := fmt.Sprintf("default=%s urn=%s urns=%s by=%s", d, showReal(cx["urn"]), strings.Join(all, ","), strings.Join(by, ","))
 	c.Model("ctxview", op, exp, desc)
 }
@@ -387,11 +401,12 @@ func runC19(c *Ctx) {
 		name := Pick(r, []string{"", "", "Ann Lee", "Bob"})
 		trigger := Pick(r, []string{"msg", "manual"})
 		inputs := []string{"one", "two"}[:r.Range(0, 2)]
+		c19ContactID = Pick(r, []int{0, 0, 1, 1234567, 42})
 		var schemes []string
 		for _, u := range us {
 			schemes = append(schemes, u.scheme)
 		}
-		desc := map[string]any{"schemes": schemes, "name": name, "trigger": trigger, "inputs": inputs}
+		desc := map[string]any{"schemes": schemes, "name": name, "trigger": trigger, "inputs": inputs, "contact_id": c19ContactID}
 		var ua, ub []string
 		for _, u := range us {
 			ua, ub = append(ua, string(u.raw(false))), append(ub, string(u.raw(true)))
@@ -407,8 +422,8 @@ func runC19(c *Ctx) {
 			var a, b *c19Obs
 			var ea, eb error
 			if c.Guard("M-noninterference", "panic:session", desc, func() {
-				a, ea = c19Run(env, us, false, name, trigger, inputs)
-				b, eb = c19Run(env, us, true, name, trigger, inputs)
+				a, ea = c19Run(env, us, false, name, trigger, inputs, nil)
+				b, eb = c19Run(env, us, true, name, trigger, inputs, nil)
 			}) {
 				continue
 			}
@@ -438,6 +453,7 @@ func runC19(c *Ctx) {
 				for _, k := range diffs {
 					cls := idxRe.ReplaceAllString(k[strings.Index(k, "/")+1:], "[i]")
 					cls = regexp.MustCompile(`^run\d+`).ReplaceAllString(cls, "run")
+					cls = strings.TrimSuffix(cls, "(container)")
 					cls = strings.TrimSuffix(strings.TrimSuffix(strings.TrimSuffix(cls, "|text"), "|json"), "|totext")
 					sig := "redaction-leak:" + cls
 					if seenSig[sig] {
@@ -460,7 +476,7 @@ func runC19(c *Ctx) {
 				}
 				// contacts without a name are shown by id
 				if name == "" {
-					if v := a.paths["start/run0/tpl:@contact"]; v != "1234567" {
+					if v := a.paths["start/run0/tpl:@contact"]; v != fmt.Sprint(c19ContactID) {
 						c.Fail("monitor", "M-nameless-by-id", "nameless-not-by-id", fmt.Sprintf("a contact without a name renders as %q instead of its id", v), desc)
 					}
 				}
@@ -473,6 +489,58 @@ func runC19(c *Ctx) {
 			if i < 1 && policy == "urns" {
 				c.Sample(map[string]any{"urns_a": ua, "urns_b": ub, "paths_walked": len(keys), "differences": len(diffs), "first_message": firstOr(a.messages)})
 			}
+		}
+	}
+
+	// ---- the host turns redaction on with a resume: everything evaluated from then on is redacted ---------------
+	for i := 0; i < c.N(40, 1500); i++ {
+		us := genC19URNs(r)
+		if len(us) == 0 {
+			continue
+		}
+		name := Pick(r, []string{"", "Ann Lee"})
+		c19ContactID = Pick(r, []int{0, 7, 1234567})
+		trigger := Pick(r, []string{"msg", "manual"})
+		desc := map[string]any{"name": name, "trigger": trigger, "contact_id": c19ContactID, "scenario": "started without the policy, first resume carries an environment that differs only in redaction_policy=urns"}
+		var ua, ub []string
+		for _, u := range us {
+			ua, ub = append(ua, string(u.raw(false))), append(ub, string(u.raw(true)))
+		}
+		desc["urns_a"], desc["urns_b"] = ua, ub
+		var a, b *c19Obs
+		var ea, eb error
+		if c.Guard("M-policy-by-resume", "panic:session", desc, func() {
+			a, ea = c19Run(envOff, us, false, name, trigger, []string{"one", "two"}, envOn)
+			b, eb = c19Run(envOff, us, true, name, trigger, []string{"one", "two"}, envOn)
+		}) || ea != nil || eb != nil {
+			continue
+		}
+		c.Count("check:M-policy-by-resume")
+		leak := ""
+		for k, v := range a.paths {
+			// leaves only: a container's rendering includes the results saved before the switch, which legitimately hold what was visible then
+			if strings.HasPrefix(k, "resume") && b.paths[k] != v && !strings.Contains(k, "results") && !strings.Contains(k, "legacy_extra") && !strings.Contains(k, "(container)") && !strings.Contains(k, "/tpl:") {
+				// results saved before the switch legitimately hold what was visible then
+				if leak == "" || k < leak {
+					leak = k
+				}
+			}
+		}
+		var ma, mb []string
+		for _, m := range a.messages {
+			if strings.HasPrefix(m, "resume") && !strings.Contains(m, "result=") {
+				ma = append(ma, m)
+			}
+		}
+		for _, m := range b.messages {
+			if strings.HasPrefix(m, "resume") && !strings.Contains(m, "result=") {
+				mb = append(mb, m)
+			}
+		}
+		c.Eval(fmt.Sprintf("switch|%d|%v|%s|%v", len(us), name == "", trigger, leak == ""))
+		if leak != "" {
+			desc["path"], desc["value_a"], desc["value_b"] = leak, truncate(a.paths[leak], 500), truncate(b.paths[leak], 500)
+			c.Fail("monitor", "M-policy-by-resume", "redaction-leak:after-policy-resume", "after a resume that turns URN redaction on, an expression still sees the URNs", desc)
 		}
 	}
 
